@@ -286,7 +286,7 @@ def case_concat(ctx, ty=None):
                  features=(f"parts={len(subs)}",), nontrivial=any(x.nontrivial() for x in subs))
 
 
-def case_result_is_new_sequence(ctx, s: Subject):
+def case_result_is_new_sequence(ctx, s: Subject, only=None):
     """Every operation that returns a column returns a NEW sequence (as `list` operations do): assigning an
     element of the result leaves the source as it was, and the other way round."""
     rng = ctx.rng
@@ -308,8 +308,13 @@ def case_result_is_new_sequence(ctx, s: Subject):
         "pd_concat_empty": lambda e: pd.concat([pd.Series(e), pd.Series(e).iloc[0:0]]).array,
         "dropna": lambda e: e.dropna(),
         "pickle": lambda e: pickle.loads(pickle.dumps(e)),
+        # field selections through the accessor (also the one that keeps every field in stored order)
+        "view_all_fields": lambda e: pd.Series(e).nest[[nm for nm, _ in ty]].array,
+        "view_fields_reversed": lambda e: pd.Series(e).nest[[nm for nm, _ in ty][::-1]].array,
+        "view_first_field": lambda e: pd.Series(e).nest[[ty[0][0]]].array,
+        "view_fields_array_api": lambda e: e.view_fields([nm for nm, _ in ty]),
     }
-    name = rng.choice(list(producers))
+    name = rng.choice([k for k in producers if (only is None or k.startswith(only))])
     src = s.fresh_ext()
     before = weak_rows(export.rows_view(src))
     r = call_real(lambda: producers[name](src))
@@ -320,9 +325,11 @@ def case_result_is_new_sequence(ctx, s: Subject):
         return
     res_before = weak_rows(export.rows_view(res))
     row = gen.rand_row(rng, ty, p_missing=0.3, maxlen=4)
+    res_ty = export.dtype_ty(res.dtype)
+    row_res = None if row is None else [[nm, dict(map(tuple, row))[nm]] for nm, _ in res_ty]
 
     def mutate_result():
-        res[rng.randrange(len(res))] = df_of_row(row, ty)
+        res[rng.randrange(len(res))] = df_of_row(row_res, res_ty)
         return weak_rows(export.rows_view(src))
     real = call_real(mutate_result)
     ctx.case(f"new_sequence.{name}.source_after_result_edit", {**s.desc(), "row": row}, real, None, {"ok": before}, hyp=s.hyp,
@@ -657,9 +664,38 @@ def derived_views(ctx, count):
         ser = s.series()
         n = len(ser)
         how = rng.choice(["slice", "mask", "take", "concat", "setitem", "pickle", "dropna", "with_flat", "without",
-                          "empty_ints", "parquet", "copy", "iloc_neg"])
+                          "empty_ints", "parquet", "copy", "iloc_neg", "from_lists_ragged", "nest_lists_ragged", "mask_setna",
+                          "where_na"])
         try:
-            if how == "slice":
+            if how in ("from_lists_ragged", "nest_lists_ragged"):
+                # list columns with a length mismatch in one row: refused — or, if ever accepted, a column whose
+                # views agree with one another
+                if len(s.ty) < 2 or n == 0 or any(r is None for r in s.content["rows"]):
+                    continue
+                cols = {}
+                j = rng.randrange(n)
+                for k, (nm, t) in enumerate(s.ty):
+                    lists = [list(dict(map(tuple, r))[nm]) for r in s.content["rows"]]
+                    if k == 1:
+                        lists[j] = lists[j] + [gen.rand_cell(rng, t)]
+                    la = gen.mk_list_array(lists, t)
+                    cols[nm] = pd.Series(la, dtype=pd.ArrowDtype(la.type), index=ser.index)
+                df = NestedFrame(cols)
+                try:
+                    d = (NestedFrame.from_lists(df, list_columns=list(cols), name="nest")["nest"] if how == "from_lists_ragged"
+                         else df.nest_lists("nest", list(cols))["nest"])
+                except Exception:  # noqa: BLE001 — refused, as it must be
+                    continue
+            elif how in ("mask_setna", "where_na"):
+                # a row made missing through pandas' masking: every view must agree that it holds nothing
+                m = np.array([rng.random() < 0.4 for _ in range(n)], dtype=bool)
+                if how == "mask_setna":
+                    d = ser.copy()
+                    if n:
+                        d[m] = pd.NA
+                else:
+                    d = ser.mask(pd.Series(m, index=ser.index)) if ser.index.is_unique else ser.copy()
+            elif how == "slice":
                 a = rng.randint(0, n)
                 d = ser.iloc[a:rng.randint(a, n)]
             elif how == "mask":
